@@ -105,3 +105,27 @@ pub fn engine_state(trading: TradingState, instruments: InstrumentStates<Default
         instruments,
     }
 }
+
+use barter::engine::state::asset::AssetState;
+use barter::statistic::summary::asset::TearSheetAssetGenerator;
+use barter_instrument::asset::{Asset, ExchangeAsset, name::{AssetNameExchange, AssetNameInternal}};
+
+pub fn asset_key(exchange: ExchangeId, name: &str) -> ExchangeAsset<AssetNameInternal> {
+    ExchangeAsset { exchange, asset: AssetNameInternal::new(SmolStr::new_inline(name)) }
+}
+pub fn asset_state(name: &str, balance: Option<barter::Timed<barter_execution::balance::Balance>>) -> AssetState {
+    AssetState {
+        asset: Asset { name_internal: AssetNameInternal::new(SmolStr::new_inline(name)), name_exchange: AssetNameExchange::new(SmolStr::new_inline(name)) },
+        statistics: match &balance { Some(b) => TearSheetAssetGenerator::init(b), None => TearSheetAssetGenerator::default() },
+        balance,
+    }
+}
+#[cfg(barter_rs_barter_rs_verif)]
+pub fn asset_states_2(a: (ExchangeAsset<AssetNameInternal>, AssetState), b: (ExchangeAsset<AssetNameInternal>, AssetState)) -> AssetStates {
+    use barter_integration::collection::verif::VecMap;
+    AssetStates(VecMap { len: 2, slots: [Some(a), Some(b), None, None] })
+}
+#[cfg(not(barter_rs_barter_rs_verif))]
+pub fn asset_states_2(a: (ExchangeAsset<AssetNameInternal>, AssetState), b: (ExchangeAsset<AssetNameInternal>, AssetState)) -> AssetStates {
+    AssetStates([a, b].into_iter().collect())
+}
